@@ -870,7 +870,11 @@ async fn get_signal(
     signal_id: Option<proto::SignalId>,
     broker: &AuthorizedAccess<'_, '_>,
 ) -> Result<i32, tonic::Status> {
-    if let Some(signal) = signal_id.unwrap().signal {
+    let signal_id = match signal_id {
+        Some(signal_id) => signal_id,
+        None => return Err(tonic::Status::invalid_argument("No SignalId provided")),
+    };
+    if let Some(signal) = signal_id.signal {
         match signal {
             proto::signal_id::Signal::Path(path) => {
                 if path.len() > MAX_REQUEST_PATH_LENGTH {
